@@ -6,6 +6,7 @@ import (
 	"fmt"
 	"math"
 	"math/rand"
+	"reflect"
 	"strings"
 	"sync"
 	"sync/atomic"
@@ -66,6 +67,7 @@ type shardSt struct {
 	applied    uint64
 	staleFirst uint64 // first index of the log when the cache of this shard was last emptied
 	pending    int    // compactions whose LogCompacted event has not been delivered yet
+	pendingIdx []uint64 // their compaction indices (what dragonboat puts into EntryInfo.Index), oldest first
 	streams    []*stream
 	compacted  bool
 }
@@ -109,6 +111,9 @@ func (s step) String() string {
 	case "compact":
 		return fmt.Sprintf("shard %d: log compacted to %d (first=%d), LogCompacted event queued", s.shard, s.a, s.a+1)
 	case "event":
+		if s.n == 1 {
+			return fmt.Sprintf("shard %d: compaction event delivered with compaction index %d (entries <= %d are gone)", s.shard, s.a, s.a)
+		}
 		return fmt.Sprintf("shard %d: ShardCache.LogCompacted delivered", s.shard)
 	case "nodedel":
 		return fmt.Sprintf("shard %d: ShardCache.NodeDeleted", s.shard)
@@ -163,6 +168,27 @@ type l1 struct {
 	setup      string
 	cnt        map[string]int64
 	dst        map[string]map[string]struct{}
+	// byIndex: when the ShardCache offers an exported LogCompacted*(shard, index uint64) method (a
+	// partial invalidation that is told the compaction index), half of the cases deliver the
+	// compaction event through it, with the inclusive compaction index dragonboat reports.
+	byIndex     reflect.Value
+	byIndexName string
+}
+
+// compactedByIndex finds an exported method of *ShardCache named LogCompacted… that takes
+// (shardID, index uint64). The unchanged tree has none.
+func compactedByIndex(sc *logreader.ShardCache) (reflect.Value, string) {
+	v := reflect.ValueOf(sc)
+	t := v.Type()
+	u64 := reflect.TypeOf(uint64(0))
+	for i := 0; i < t.NumMethod(); i++ {
+		m := t.Method(i)
+		mt := m.Type // receiver is In(0)
+		if strings.HasPrefix(m.Name, "LogCompacted") && mt.NumIn() == 3 && mt.In(1) == u64 && mt.In(2) == u64 && mt.NumOut() == 0 {
+			return v.Method(i), m.Name
+		}
+	}
+	return reflect.Value{}, ""
 }
 
 func (c *l1) count(name string, n int64) { c.cnt[name] += n }
@@ -201,6 +227,13 @@ func runL1(r *ev.Run, rep *reporter, id caseID) {
 	c.cached = &logreader.Cached{LogQuerier: c.q, ShardCache: c.sc}
 	c.simple = &logreader.Simple{LogQuerier: c.q}
 	c.interleave = rnd.Intn(2) == 0
+	useByIndex := rnd.Intn(2) == 0
+	if m, name := compactedByIndex(c.sc); m.IsValid() {
+		r.Distinct("l1_index_carrying_invalidation_methods", name)
+		if useByIndex {
+			c.byIndex, c.byIndexName = m, name
+		}
+	}
 	switch p := rnd.Intn(100); {
 	case p < 30:
 		c.profile = 0
@@ -237,6 +270,9 @@ func runL1(r *ev.Run, rep *reporter, id caseID) {
 	c.pickMaxSize()
 	c.setup = fmt.Sprintf("cache size %d, maxSize %d, payload profile %d, shards %d, interleaved calls %v; initial log(s):",
 		c.cacheSize, c.maxSize, c.profile, nsh, c.interleave)
+	if c.byIndexName != "" {
+		c.setup = "compaction events delivered through ShardCache." + c.byIndexName + "(shard, compaction index); " + c.setup
+	}
 	for _, s := range c.shards {
 		c.setup += fmt.Sprintf(" shard %d [%d..%d] applied %d sizes %v;", s.id, s.log.first(), s.log.last, s.applied, c.sizes(s, 12))
 	}
@@ -270,6 +306,7 @@ func runL1(r *ev.Run, rep *reporter, id caseID) {
 				}
 				s.log.compact(to)
 				s.pending++
+				s.pendingIdx = append(s.pendingIdx, to)
 				s.compacted = true
 				c.steps = append(c.steps, step{kind: "compact", shard: s.id, a: to})
 				if rnd.Intn(2) == 0 { // most of the time the event follows at once
@@ -338,12 +375,28 @@ func (c *l1) render(max int) []string {
 }
 
 func (c *l1) deliver(s *shardSt) {
-	c.sc.LogCompacted(s.id)
+	var idx uint64
+	if len(s.pendingIdx) > 0 {
+		idx, s.pendingIdx = s.pendingIdx[0], s.pendingIdx[1:]
+	} else {
+		idx = s.log.marker
+	}
 	if s.pending > 0 {
 		s.pending--
 	}
-	s.staleFirst = s.log.first()
-	c.steps = append(c.steps, step{kind: "event", shard: s.id})
+	if c.byIndex.IsValid() {
+		// partial invalidation: told "entries <= idx are gone"; whatever it keeps must be > idx.
+		// Later compactions whose events are still queued keep their own tolerance.
+		c.byIndex.Call([]reflect.Value{reflect.ValueOf(s.id), reflect.ValueOf(idx)})
+		if idx+1 > s.staleFirst {
+			s.staleFirst = idx + 1
+		}
+		c.count("l1_compaction_events_delivered_with_index", 1)
+	} else {
+		c.sc.LogCompacted(s.id)
+		s.staleFirst = s.log.first()
+	}
+	c.steps = append(c.steps, step{kind: "event", shard: s.id, a: idx, n: map[bool]int{false: 0, true: 1}[c.byIndex.IsValid()]})
 }
 
 func (c *l1) payload() int {
